@@ -387,6 +387,47 @@ def run_static_case(case):
                 out.append(('class:shared-object:submodel', 'none', sh[:3], 'a submodel shares a mutable object with its class'))
                 break
     out += input_aliasing(kind)
+    # what one object evaluates is its own: a name only the first object has is undefined on the second (nothing is left
+    # behind in a table the objects share)
+    try:
+        p, q = build(kind), build(kind)
+        p.add_variable('OnlyOnP', 3.5)
+        p.eval('OnlyOnP + 1')
+        try:
+            got = q.eval('OnlyOnP + 1')
+            out.append(('leak:eval-namespace', 'AttributeError on the sibling', repr(got)[:80], 'after one object evaluated an expression, its variable is visible to eval() on another object'))
+        except AttributeError:
+            pass
+        cp = p.copy()
+        cp.add_variable('OnlyOnCopy', 1.0)
+        cp.eval('OnlyOnCopy * 2')
+        try:
+            got = p.eval('OnlyOnCopy * 2')
+            out.append(('leak:eval-namespace:copy', 'AttributeError on the original', repr(got)[:80], 'a variable added to (and evaluated on) the copy is visible to eval() on the original'))
+        except AttributeError:
+            pass
+    except Exception as e:
+        out.append(('eval-probe:%s' % type(e).__name__, 'runs', repr(e)[:160], 'eval probe'))
+    if kind == 'model':
+        # a hand-written class that declares ENDOGENOUS but no CHECK (and one that declares neither): instances own their lists
+        class Hand(fsic.BaseModel):
+            ENDOGENOUS = ['Y']
+            EXOGENOUS = ['X']
+            NAMES = ENDOGENOUS + EXOGENOUS
+
+            def _evaluate(self, t, **kw):
+                self._Y[t] = self._X[t]
+
+        for _ in range(1):
+            a1, b1 = Hand(list(SPAN)), Hand(list(SPAN))
+            sh = shared(a1, b1) + shared(a1, class_mutables(Hand))
+            if sh:
+                out.append(('class:shared-object:hand-written', 'no shared mutable object', sh[:4], 'an instance of a hand-written class shares a list with the class or a sibling'))
+            before_cls = class_state(Hand)
+            a1.check.append('Y')
+            a1.endogenous.append('Q')
+            if class_state(Hand) != before_cls or list(b1.check) != list(Hand.CHECK) or 'Q' in b1.endogenous or 'Q' in Hand(list(SPAN)).endogenous:
+                out.append(('leak:class:hand-written', 'class and siblings unchanged', [list(Hand.CHECK), list(b1.check), list(b1.endogenous)], 'editing one instance\'s check / endogenous list changed the class or another instance'))
     if kind == 'linker':
         # linkers created with every argument left at its default: the defaults themselves must not be shared
         try:
